@@ -110,6 +110,12 @@ fn bits_case(prefix: &[u8], seed: u64, n: u64) -> Verdict {
     if got.bits() > n {
         return Err(format!("gen_biguint({}) returned a {}-bit value", n, got.bits()));
     }
+    // a second draw continues exactly where the first stopped (the value-stability guarantee covers sequences of
+    // calls on one generator, as in ci/big_rand): no word skipped, none read twice
+    let n2 = (n.wrapping_mul(7) + 13) % 131;
+    let want2 = model.model_biguint(n2);
+    let got2 = must_return("gen_biguint (second call)", || rng.gen_biguint(n2))?;
+    ctx(eq_bu(&got2, &want2), &format!("gen_biguint({}) followed by gen_biguint({}): the second value is not the next ceil(n/32) words of the stream", n, n2))?;
     // RandomBits matches gen_biguint from a cloned RNG
     let mut r2 = StreamRng::new(prefix, seed);
     let via: BigUint = must_return("RandomBits", || RandomBits::new(n).sample(&mut r2))?;
@@ -161,6 +167,11 @@ fn range_case(prefix: &[u8], seed: u64, lneg: bool, lo: &[u64], hneg: bool, hi: 
         let want = l.add(&RefInt::from_nat(cand));
         let mut rng = StreamRng::new(prefix, seed);
         ctx(must_return("gen_bigint_range", || rng.gen_bigint_range(&bl, &bh)).and_then(|v| eq_bi(&v, &want)), "gen_bigint_range: result - low is not the first candidate below high - low")?;
+        // the generator is left just after the accepted candidate
+        let want2 = model.model_biguint(45);
+        ctx(must_return("gen_biguint after gen_bigint_range", || rng.gen_biguint(45)).and_then(|v| eq_bu(&v, &want2)), "gen_bigint_range consumed more or less of the stream than its candidates")?;
+        let mut rng = StreamRng::new(prefix, seed);
+        ctx(must_return("Rng::gen_range(low..high)", || rand::Rng::gen_range(&mut rng, bl.clone()..bh.clone())).and_then(|v| eq_bi(&v, &want)), "Rng::gen_range(low..high) for BigInt")?;
         let mut rng = StreamRng::new(prefix, seed);
         ctx(must_return("Uniform::new", || Uniform::new(bl.clone(), bh.clone()).sample(&mut rng)).and_then(|v| eq_bi(&v, &want)), "Uniform::<BigInt>::new(low, high).sample")?;
         let mut rng = StreamRng::new(prefix, seed);
@@ -189,6 +200,11 @@ fn range_case(prefix: &[u8], seed: u64, lneg: bool, lo: &[u64], hneg: bool, hi: 
         let want = l.add(&RefInt::from_nat(cand));
         let mut rng = StreamRng::new(prefix, seed);
         ctx(must_return("Uniform::new_inclusive", || Uniform::new_inclusive(bl.clone(), bh.clone()).sample(&mut rng)).and_then(|v| eq_bi(&v, &want)), "Uniform::<BigInt>::new_inclusive(low, high).sample")?;
+        let mut rng = StreamRng::new(prefix, seed);
+        ctx(must_return("Rng::gen_range(low..=high)", || rand::Rng::gen_range(&mut rng, bl.clone()..=bh.clone())).and_then(|v| eq_bi(&v, &want)), "Rng::gen_range(low..=high) for BigInt")?;
+        if want.cmp(&l) == std::cmp::Ordering::Less || want.cmp(&h) == std::cmp::Ordering::Greater {
+            crate::refint::oracle_error("inclusive range model produced a value outside [low, high]");
+        }
     }
     // ---- BigUint range on magnitudes ----
     let (ul, uh) = (rn(lo), rn(hi));
@@ -216,6 +232,10 @@ fn range_case(prefix: &[u8], seed: u64, lneg: bool, lo: &[u64], hneg: bool, hi: 
         let want = ul.add(&cand);
         let mut rng = StreamRng::new(prefix, seed);
         ctx(must_return("gen_biguint_range", || rng.gen_biguint_range(&bul, &buh)).and_then(|v| eq_bu(&v, &want)), "gen_biguint_range")?;
+        let want2 = model.model_biguint(77);
+        ctx(must_return("gen_biguint after gen_biguint_range", || rng.gen_biguint(77)).and_then(|v| eq_bu(&v, &want2)), "gen_biguint_range consumed more or less of the stream than its candidates")?;
+        let mut rng = StreamRng::new(prefix, seed);
+        ctx(must_return("Rng::gen_range(low..high)", || rand::Rng::gen_range(&mut rng, bul.clone()..buh.clone())).and_then(|v| eq_bu(&v, &want)), "Rng::gen_range(low..high) for BigUint")?;
         let mut rng = StreamRng::new(prefix, seed);
         ctx(must_return("Uniform::new", || Uniform::new(bul.clone(), buh.clone()).sample(&mut rng)).and_then(|v| eq_bu(&v, &want)), "Uniform::<BigUint>::new(low, high).sample")?;
         let mut rng = StreamRng::new(prefix, seed);
@@ -232,6 +252,8 @@ fn range_case(prefix: &[u8], seed: u64, lneg: bool, lo: &[u64], hneg: bool, hi: 
         rejections_seen = rejections_seen.max(rej);
         let mut rng = StreamRng::new(prefix, seed);
         ctx(must_return("gen_biguint_below", || rng.gen_biguint_below(&buh)).and_then(|v| eq_bu(&v, &cand)), "gen_biguint_below: not the first candidate below the bound")?;
+        let (cand2, _) = model.model_below(&uh);
+        ctx(must_return("gen_biguint_below (second call)", || rng.gen_biguint_below(&buh)).and_then(|v| eq_bu(&v, &cand2)), "gen_biguint_below twice: the second value is not the next candidate below the bound")?;
     }
     let mut info = Info::new(rejections_seen >= 1 || classes.len() > 1);
     info.classes = classes;
@@ -292,7 +314,7 @@ impl Property for C18 {
         "C18"
     }
     fn rule(&self) -> &'static str {
-        "Cases are histories of RNG output: a byte-stream RngCore whose first bytes are generated (all-zero, all-ones, special-byte and uniform prefixes of 0..96 bytes, and prefixes engineered so the first k candidates exceed the bound) and which then continues from a splitmix64 stream. bits (stream, n): n in 0..=130, 32k+{-1,0,1}, 64k+{-1,0,1}, up to 2100; gen_biguint(n) must equal the model (first ceil(n/32) little-endian 32-bit words as base-2^32 digits, top word shifted right by 32 - n%32), RandomBits must match, gen_bigint(n) must be canonical and inside (-2^n, 2^n) and match RandomBits. range (stream, low, high) over all sign pairs: width 1, 2^k, 2^k+-1, negative, zero-crossing, lbound = 0, ubound = 0; gen_bigint_range / gen_biguint_range / Uniform::new / new_inclusive / sample_single must return low + (first candidate of width bits(high-low) below high-low), gen_biguint_below the first candidate below the bound; empty, inverted and zero bounds must panic. chacha: the ChaCha value-stability vectors of ci/big_rand. Non-trivial: n not a multiple of 64, or the rejection loop retried at least once, or a special range class."
+        "Cases are histories of RNG output: a byte-stream RngCore whose first bytes are generated (all-zero, all-ones, special-byte and uniform prefixes of 0..96 bytes, and prefixes engineered so the first k candidates exceed the bound) and which then continues from a splitmix64 stream. bits (stream, n): n in 0..=130, 32k+{-1,0,1}, 64k+{-1,0,1}, up to 2100; gen_biguint(n) must equal the model (first ceil(n/32) little-endian 32-bit words as base-2^32 digits, top word shifted right by 32 - n%32), RandomBits must match, gen_bigint(n) must be canonical and inside (-2^n, 2^n) and match RandomBits. range (stream, low, high) over all sign pairs: width 1, 2^k, 2^k+-1, negative, zero-crossing, lbound = 0, ubound = 0; gen_bigint_range / gen_biguint_range / Uniform::new / new_inclusive / sample_single must return low + (first candidate of width bits(high-low) below high-low), gen_biguint_below the first candidate below the bound; Rng::gen_range(low..high) and (low..=high) likewise; a second draw after each call must continue from exactly the next unread word of the stream; empty, inverted and zero bounds must panic. chacha: the ChaCha value-stability vectors of ci/big_rand. Non-trivial: n not a multiple of 64, or the rejection loop retried at least once, or a special range class."
     }
     fn technique(&self) -> &'static str {
         "model-based property testing (proptest) over generated RNG output streams: a byte-stream RngCore drives the library and an independent reader of the same stream computes the documented function"
@@ -301,8 +323,9 @@ impl Property for C18 {
         let bits = (prefix(), any::<u64>(), bit_size()).prop_map(|(p, s, n)| Case::new("bits", vec![Arg::B(p), Arg::U(s as u128), Arg::U(n as u128)]));
         // bounds: powers of two +- 1, small widths, multi-digit
         let bound = prop_oneof![
-            30 => gen::nat(3),
-            30 => (0u64..=200, -1i128..=1).prop_map(|(k, d)| RefInt::from_nat(Nat::pow2(k)).add(&RefInt::from_i128(d)).mag.to_u64_digits()),
+            25 => gen::nat(3),
+            5 => gen::nat(9),
+            30 => (0u64..=520, -1i128..=1).prop_map(|(k, d)| RefInt::from_nat(Nat::pow2(k)).add(&RefInt::from_i128(d)).mag.to_u64_digits()),
             20 => (0u64..=10).prop_map(|v| gen::trim(vec![v])),
             20 => gen::nat(1),
         ];
